@@ -1,6 +1,7 @@
 (* C04  Offsets resolve to exactly the addressed codepoints, or are rejected. *)
 From Coq Require Import ZArith.
 From Stam Require Import Base.Tac Model.Offset Model.Utf8 Spec.OffsetSpec Proofs.Offset Proofs.Utf8.
+From Stam Require Model.Store Proofs.StoreSel Proofs.StoreRange.
 
 (* accepted exactly when the offset denotes 0 <= begin <= end <= len *)
 Theorem C04_resource_accept_iff : forall len o,
@@ -47,6 +48,14 @@ Theorem C04_report_relative : forall pb pe b e m, pb <= b -> b <= e -> e <= pe -
   /\ mode_of off = m
   /\ selection_ts (pb, pe) off = Ok (b, e).
 Proof. exact relative_offset_spec. Qed.
+
+(* the premises "fst p <= snd p", "snd p <= len" of the theorems above hold for every text selection
+   of every store any history of operations can build: what an accepted offset denotes lies inside
+   what it is relative to at every nesting depth of annotation-relative offsets, and nothing else
+   creates text selections *)
+Theorem C04_store_selections_inside : forall ops r rs rg,
+  Store.get_res (Store.run ops) r = Some rs -> In rg (Store.r_sels rs) -> fst rg <= snd rg /\ snd rg <= Store.r_len rs.
+Proof. intros ops r rs rg H Hin. exact (StoreRange.reachable_RangeInv ops r rs H rg Hin). Qed.
 
 Example C04_nonvacuous :
   resource_ts 5 (mkoff (CE (-4)%Z) (CB 3)) = Ok (1, 3)
